@@ -146,3 +146,269 @@ Proof.
   split; [reflexivity|]. split; [|split; [|split; [exact I | vm_compute; reflexivity]]];
     unfold wf_bytes, wf_byte; repeat constructor.
 Qed.
+
+(* ------------------------------------------------------------------ ECB / CTR / XTS / CCM / key-wrap wrappers *)
+Lemma wrap_ecb_roundtrip_l key m : aes_key_ok key = true -> wf_bytes key -> wf_bytes m ->
+  Nat.modulo (length m) 16 = 0%nat ->
+  exists c, aes_ecb_encrypt key m = Ok c /\ aes_ecb_decrypt key c = Ok m.
+Proof.
+  intros Hk Wk Wm M. exists (ecb (aesE key) m). unfold aes_ecb_encrypt, aes_ecb_decrypt.
+  destruct (ecb_length (aesE key) (aes_E_ok key Hk Wk) m Wm M) as [Lc _].
+  rewrite Hk, (len_mult16_true m M), (len_mult16_true (ecb (aesE key) m)) by (rewrite Lc; exact M).
+  cbn [negb]. split; [reflexivity|]. f_equal.
+  apply (ecb_dec_enc_l (aesE key) (aesD key) (aes_DE key Hk Wk) (aes_E_ok key Hk Wk)); assumption.
+Qed.
+
+Lemma wrap_ctr_roundtrip_l key m nonce : aes_key_ok key = true -> wf_bytes key -> length nonce = 16%nat ->
+  exists c, aes_ctr_crypt key m nonce = Ok c /\ aes_ctr_crypt key c nonce = Ok m /\ length c = length m.
+Proof.
+  intros Hk Wk Ln. exists (ctr_xcrypt (aesE key) nonce m). unfold aes_ctr_crypt.
+  rewrite Hk, Ln. cbn [negb Nat.eqb]. split; [reflexivity|]. split.
+  - f_equal. apply ctr_involutive_l; auto using aes_E_len.
+  - apply ctr_length; auto using aes_E_len.
+Qed.
+
+Lemma xts_half_ok key : xts_key_ok key = true -> wf_bytes key ->
+  aes_key_ok (xts_k1 key) = true /\ wf_bytes (xts_k1 key) /\ aes_key_ok (xts_k2 key) = true /\ wf_bytes (xts_k2 key).
+Proof.
+  unfold xts_key_ok, xts_k1, xts_k2, aes_key_ok. intros H W.
+  apply orb_true_iff in H as [H|H]; apply Nat.eqb_eq in H; rewrite H;
+    (repeat split; [rewrite firstn_length, H; reflexivity | now apply wf_bytes_firstn
+                   | rewrite skipn_length, H; reflexivity | now apply wf_bytes_skipn]).
+Qed.
+
+Lemma wrap_xts_roundtrip_l key m tweak : xts_key_ok key = true -> wf_bytes key ->
+  eqb_list (xts_k1 key) (xts_k2 key) = false -> okb tweak -> wf_bytes m -> (16 <= length m)%nat ->
+  exists c, aes_xts_encrypt key m tweak = Ok c /\ aes_xts_decrypt key c tweak = Ok m.
+Proof.
+  intros Hk Wk Hne [Lt Wt] Wm Lm.
+  destruct (xts_half_ok key Hk Wk) as (K1 & W1 & K2 & W2).
+  assert (Ht : okb (aesE (xts_k2 key) tweak)) by (apply aes_E_ok; auto; now split).
+  exists (xts_crypt (aesE (xts_k1 key)) (aesE (xts_k2 key)) false tweak m).
+  pose proof (xts_enc_length (aesE (xts_k1 key)) (aes_E_ok _ K1 W1) (aesE (xts_k2 key)) tweak m Ht Wm Lm) as Lc.
+  unfold aes_xts_encrypt, aes_xts_decrypt. rewrite Hk, Lt, Hne. cbn [negb Nat.eqb].
+  replace (Nat.ltb (length m) 16) with false by (symmetry; apply Nat.ltb_ge; lia).
+  destruct m as [|x m']; [simpl in Lm; lia|]. split; [reflexivity|].
+  remember (xts_crypt (aesE (xts_k1 key)) (aesE (xts_k2 key)) false tweak (x :: m')) as c.
+  replace (Nat.ltb (length c) 16) with false by (symmetry; apply Nat.ltb_ge; lia).
+  destruct c as [|y c']; [simpl in Lc; lia|]. f_equal. rewrite Heqc.
+  apply (xts_dec_enc_l (aesE (xts_k1 key)) (aesD (xts_k1 key)) (aes_DE _ K1 W1) (aes_E_ok _ K1 W1)); assumption.
+Qed.
+
+Lemma wrap_ccm_roundtrip_l key m nonce aad taglen :
+  aes_key_ok key = true -> wf_bytes key -> ccm_nonce_ok nonce = true ->
+  ccm_tag_ok (match taglen with Some t => t | None => 16%Z end) = true ->
+  ccm_len_ok nonce (length m + Z.to_nat (match taglen with Some t => t | None => 16%Z end)) = true ->
+  exists c, aes_ccm_encrypt key m nonce aad taglen = Ok c /\
+            aes_ccm_decrypt key c nonce (match aad with Some a => a | None => [] end) taglen = Ok m.
+Proof.
+  intros Hk Wk Hn Ht Hl. set (t := match taglen with Some t => t | None => 16%Z end) in *.
+  set (a := match aad with Some a => a | None => [] end).
+  exists (ccm_encrypt (aesE key) nonce a (Z.to_nat t) m).
+  assert (Hn14 : (length nonce <= 14)%nat).
+  { unfold ccm_nonce_ok in Hn. apply andb_true_iff in Hn as [_ Hn]. apply Nat.leb_le in Hn. lia. }
+  assert (Ht16 : (Z.to_nat t <= 16)%nat).
+  { unfold ccm_tag_ok in Ht. apply andb_true_iff in Ht as [Ht _]. apply andb_true_iff in Ht as [_ Ht]. lia. }
+  pose proof (aes_E_len key Hk Wk) as EL.
+  assert (Lc : length (ccm_encrypt (aesE key) nonce a (Z.to_nat t) m) = (length m + Z.to_nat t)%nat).
+  { unfold ccm_encrypt. rewrite app_length, ccm_crypt_length, ccm_tag_length by assumption. reflexivity. }
+  assert (Hl' : ccm_len_ok nonce (length m) = true).
+  { unfold ccm_len_ok in *. apply N.ltb_lt. apply N.ltb_lt in Hl. lia. }
+  unfold aes_ccm_encrypt, aes_ccm_decrypt, ccm_params_ok. fold t. fold a.
+  rewrite Hk, Ht, Hn, Hl', Lc, Hl. cbn [negb andb]. split; [reflexivity|].
+  now rewrite ccm_dec_enc_l.
+Qed.
+
+Lemma nat_mod8_Z n : Z.of_nat (Nat.modulo n 8) = (Z.of_nat n mod 8)%Z.
+Proof. now rewrite Zdiv.mod_Zmod by lia. Qed.
+
+Lemma wrap_keywrap_roundtrip_l kek data : aes_key_ok kek = true -> wf_bytes kek -> wf_bytes data ->
+  (16 <= length data)%nat -> Nat.modulo (length data) 8 = 0%nat ->
+  exists c, aes_key_wrap kek data = Ok c /\ aes_key_unwrap kek c = Ok data.
+Proof.
+  intros Hk Wk Wd Ld Md. exists (aes_kw_wrap kek data). unfold aes_key_wrap, aes_key_unwrap.
+  pose proof (kw_wrap_length (aesE kek) (aes_E_ok kek Hk Wk) data Wd Md) as [Lc _].
+  change (kw_wrap (aesE kek) data) with (aes_kw_wrap kek data) in Lc.
+  rewrite Hk, Lc. cbn [negb].
+  replace (Nat.ltb (length data) 16) with false by (symmetry; apply Nat.ltb_ge; lia).
+  replace (Nat.ltb (8 + length data) 24) with false by (symmetry; apply Nat.ltb_ge; lia).
+  rewrite Md. cbn [Nat.eqb negb].
+  assert (M2 : Nat.modulo (8 + length data) 8 = 0%nat).
+  { apply Nat2Z.inj. rewrite nat_mod8_Z. apply (f_equal Z.of_nat) in Md. rewrite nat_mod8_Z in Md. lia. }
+  rewrite M2. cbn [Nat.eqb negb]. split; [reflexivity|].
+  unfold aes_kw_unwrap, aes_kw_wrap.
+  change (inv_cipher_rks (key_expansion kek)) with (aesD kek). change (cipher_rks (key_expansion kek)) with (aesE kek).
+  now rewrite (unwrap_wrap_l (aesE kek) (aesD kek) (aes_DE kek Hk Wk) (aes_E_ok kek Hk Wk)).
+Qed.
+
+(* ------------------------------------------------------------------ Counter *)
+Definition zsum (l : list Z) : Z := fold_right Z.add 0%Z l.
+Definition enc32 (big : bool) (c : Z) : list N := (if big then be_enc else le_enc) 4%nat (Z.to_N c).
+Definition dec32 (big : bool) (l : list N) : Z := Z.of_N ((if big then be_dec else le_dec) l).
+
+Lemma counter_trace_nth nonce big incs : forall c k, (k <= length incs)%nat ->
+  nth k (counter_trace nonce big c incs) (Err 0) = counter_encode nonce big (c + zsum (firstn k incs)).
+Proof.
+  induction incs as [|i t IH]; intros c k Hk.
+  - destruct k; [|simpl in Hk; lia]. simpl. now rewrite Z.add_0_r.
+  - destruct k as [|k].
+    + cbn [counter_trace nth firstn zsum fold_right]. now rewrite Z.add_0_r.
+    + cbn [counter_trace nth firstn]. rewrite IH by (simpl in Hk; lia).
+      f_equal. cbn [zsum fold_right]. unfold zsum. lia.
+Qed.
+
+Lemma dec32_enc32 big c : (0 <= c < 4294967296)%Z -> dec32 big (enc32 big c) = c.
+Proof.
+  intros H. unfold dec32, enc32.
+  assert (B : Z.to_N c < 2 ^ (8 * N.of_nat 4)) by (change (2 ^ (8 * N.of_nat 4)) with 4294967296; lia).
+  destruct big; [rewrite be_dec_enc_small | rewrite le_dec_enc_small]; auto; lia.
+Qed.
+
+(* what the property demands of a 32-bit block counter: it advances modulo 2^32 *)
+Definition counter_spec_value (nonce : list N) (big : bool) (c : Z) : list N :=
+  firstn 12 nonce ++ enc32 big (c mod 4294967296).
+
+Lemma land_mask32 c : Z.land c 4294967295 = (c mod 4294967296)%Z.
+Proof. change 4294967295%Z with (Z.ones 32). rewrite Z.land_ones by lia. reflexivity. Qed.
+
+(* full strength: every start value, ctr_value and increment sequence (negative ones included), wrap past 2^32 included *)
+Lemma counter_advance_l nonce cv big incs k :
+  length nonce = 16%nat -> (k <= length incs)%nat ->
+  let c0 := (dec32 big (skipn 12 nonce) + match cv with Some v => v | None => 0 end)%Z in
+  let c := (c0 + zsum (firstn k incs))%Z in
+  counter_init nonce cv big = Ok c0 /\
+  exists v, nth k (counter_trace nonce big c0 incs) (Err 0) = Ok v /\
+            v = counter_spec_value nonce big c /\
+            length v = 16%nat /\ firstn 12 v = firstn 12 nonce /\ dec32 big (skipn 12 v) = (c mod 4294967296)%Z.
+Proof.
+  intros Ln Hk c0 c. split.
+  - unfold counter_init. rewrite Ln. reflexivity.
+  - rewrite counter_trace_nth by assumption. fold c. unfold counter_encode. rewrite land_mask32.
+    eexists. split; [reflexivity|].
+    assert (L12 : length (firstn 12 nonce) = 12%nat) by (rewrite firstn_length; lia).
+    fold (enc32 big (c mod 4294967296)).
+    assert (L4 : length (enc32 big (c mod 4294967296)) = 4%nat)
+      by (unfold enc32; destruct big; [apply be_enc_length | apply le_enc_length]).
+    repeat split.
+    + rewrite app_length. lia.
+    + rewrite firstn_app, L12, Nat.sub_diag, firstn_O, app_nil_r. apply firstn_all2. lia.
+    + rewrite skipn_app, L12, Nat.sub_diag, skipn_O. rewrite skipn_all2 by lia. cbn [app].
+      apply dec32_enc32. apply Z.mod_pos_bound. lia.
+Qed.
+
+(* the former witness of finding C09-F1 (Counter(nonce ending ffffffff).increment(1).value), now wrapping to zero *)
+Lemma counter_wrap_witness :
+  counter_run (repeat 0 12 ++ repeat 255 4) None false [1%Z] = Ok [Ok (repeat 0 12 ++ repeat 255 4); Ok (repeat 0 16)].
+Proof. vm_compute. reflexivity. Qed.
+
+(* ------------------------------------------------------------------ CRC *)
+Definition str_crc32 : list N := [99; 114; 99; 51; 50].
+Definition str_crc32_mpeg : list N := [99; 114; 99; 51; 50; 45; 109; 112; 101; 103].
+Definition str_crc16_xmodem : list N := [99; 114; 99; 49; 54; 45; 120; 109; 111; 100; 101; 109].
+
+Lemma crc_table_standard_l :
+  map fst crc_table = [str_crc32; str_crc32_mpeg; str_crc16_xmodem] /\
+  map (fun e => crcmod_params (snd e)) crc_table = [Some CRC32; Some CRC32_MPEG2; Some CRC16_XMODEM].
+Proof. split; vm_compute; reflexivity. Qed.
+
+Lemma spsdk_crc_standard_l data :
+  spsdk_crc str_crc32 data = Ok (crc CRC32 data) /\
+  spsdk_crc str_crc32_mpeg data = Ok (crc CRC32_MPEG2 data) /\
+  spsdk_crc str_crc16_xmodem data = Ok (crc CRC16_XMODEM data).
+Proof. repeat split; reflexivity. Qed.
+
+(* ------------------------------------------------------------------ KeyStore.derive_* *)
+Lemma chunks16_single (i : list N) : length i = 16%nat -> chunks 16 i = [i].
+Proof. intros L. rewrite <- (app_nil_r i) at 1. rewrite chunks_cons by (auto; lia). reflexivity. Qed.
+
+Lemma nlen_eq {A} (l : list A) n : nlen l = N.of_nat n -> length l = n.
+Proof. unfold nlen. apply Nat2N.inj. Qed.
+
+Definition ks_block (first : N) : list N := first :: zeros 15.
+
+Lemma keystore_derivations_l k : nlen k = 32 ->
+  derive_hmac_key k = Ok (aesE k (zeros 16)) /\
+  derive_enc_image_key k = Ok (aesE k (ks_block 1) ++ aesE k (ks_block 2)) /\
+  derive_sb_kek_key k = Ok (aesE k (ks_block 3) ++ aesE k (ks_block 4)) /\
+  (forall i, nlen i = 16 -> derive_otfad_kek_key k i = Ok (aesE k i)).
+Proof.
+  intros Hn. pose proof (nlen_eq k 32 Hn) as Lk.
+  assert (Hk : aes_key_ok k = true) by (unfold aes_key_ok; rewrite Lk; reflexivity).
+  unfold derive_hmac_key, derive_enc_image_key, derive_sb_kek_key, derive_otfad_kek_key, keystore_derive.
+  change derive_hmac_key_key_len with 32. change derive_enc_image_key_key_len with 32.
+  change derive_sb_kek_key_key_len with 32. change derive_otfad_kek_key_key_len with 32.
+  rewrite Hn. cbn [N.eqb Pos.eqb negb].
+  unfold aes_ecb_encrypt. rewrite Hk. cbn [negb].
+  repeat split.
+  - unfold derive_hmac_key_const. cbv [len_mult16 length Nat.modulo Nat.divmod Nat.eqb negb snd Nat.sub fst].
+    cbv [ecb ecb_blocks chunks chunks_fuel BS length firstn skipn map]. cbn [concat]. rewrite ?app_nil_r. reflexivity.
+  - unfold derive_enc_image_key_const. cbv [len_mult16 length Nat.modulo Nat.divmod Nat.eqb negb snd Nat.sub fst].
+    cbv [ecb ecb_blocks chunks chunks_fuel BS length firstn skipn map]. cbn [concat]. rewrite ?app_nil_r. reflexivity.
+  - unfold derive_sb_kek_key_const. cbv [len_mult16 length Nat.modulo Nat.divmod Nat.eqb negb snd Nat.sub fst].
+    cbv [ecb ecb_blocks chunks chunks_fuel BS length firstn skipn map]. cbn [concat]. rewrite ?app_nil_r. reflexivity.
+  - intros i Hi. pose proof (nlen_eq i 16 Hi) as Li. unfold derive_otfad_kek_key_const.
+    change derive_otfad_kek_key_input_len with 16. rewrite Hi. cbn [N.eqb Pos.eqb negb].
+    unfold len_mult16. rewrite Li. cbn [Nat.modulo Nat.divmod Nat.eqb negb snd Nat.sub fst].
+    unfold ecb, ecb_blocks, BS. rewrite chunks16_single by assumption. cbn [map concat]. now rewrite app_nil_r.
+Qed.
+
+Lemma keystore_rejects_l k i : nlen k <> 32 ->
+  derive_hmac_key k = Err 1 /\ derive_enc_image_key k = Err 1 /\ derive_sb_kek_key k = Err 1 /\ derive_otfad_kek_key k i = Err 1.
+Proof.
+  intros Hn. apply N.eqb_neq in Hn.
+  unfold derive_hmac_key, derive_enc_image_key, derive_sb_kek_key, derive_otfad_kek_key, keystore_derive.
+  change derive_hmac_key_key_len with 32. change derive_enc_image_key_key_len with 32.
+  change derive_sb_kek_key_key_len with 32. change derive_otfad_kek_key_key_len with 32.
+  rewrite Hn. repeat split; reflexivity.
+Qed.
+
+(* ------------------------------------------------------------------ SB3.1 KDF: CMAC in counter mode over a fixed 32-byte layout *)
+Definition kdf_layout (const rights mode key_length : Z) (iteration : N) : list N :=
+  le_enc 12 (Z.to_N const)                                   (* label: derivation constant, 12 bytes little endian *)
+  ++ zeros 8 ++ [Z.to_N (rights * 64)]                       (* context: 8 reserved bytes, access rights in bits 7:6 *)
+  ++ [if (mode =? 1)%Z then 1 else 16] ++ [0]                (* 0x01 = KDK, 0x10 = block key; reserved *)
+  ++ [if (key_length =? 128)%Z then 32 else 33]              (* key option 0x20 / 0x21 *)
+  ++ be_enc 4 (Z.to_N key_length) ++ be_enc 4 iteration.     (* L and counter i, big endian *)
+
+Lemma kdf_layout_length c r m kl i : length (kdf_layout c r m kl i) = 32%nat.
+Proof. unfold kdf_layout, zeros. rewrite !app_length, le_enc_length, !be_enc_length, repeat_length. reflexivity. Qed.
+
+Lemma sb31_kdf_spec_l key const rights mode key_length :
+  (0 <= rights <= 3)%Z -> (key_length = 128 \/ key_length = 256)%Z -> (0 <= const < 2 ^ 96)%Z -> aes_key_ok key = true ->
+  kdf_derive key const rights mode key_length =
+  Ok (aes_cmac key (kdf_layout const rights mode key_length 1) ++
+      (if (key_length =? 256)%Z then aes_cmac key (kdf_layout const rights mode key_length 2) else [])).
+Proof.
+  intros Hr Hkl Hc Hk. unfold kdf_derive, kdf_data, spsdk_cmac. fold (kdf_layout const rights mode key_length 1).
+  fold (kdf_layout const rights mode key_length 2).
+  replace ((0 <=? rights) && (rights <=? 3))%Z with true by (symmetry; apply andb_true_iff; split; apply Z.leb_le; lia).
+  replace ((key_length =? 128) || (key_length =? 256))%Z with true
+    by (symmetry; apply orb_true_iff; destruct Hkl; [left | right]; now apply Z.eqb_eq).
+  replace ((const <? 0) || (2 ^ 96 <=? const))%Z with false
+    by (symmetry; apply orb_false_iff; split; [apply Z.ltb_ge | apply Z.leb_gt]; lia).
+  rewrite Hk. cbn [negb]. destruct (key_length =? 256)%Z; [reflexivity | now rewrite app_nil_r].
+Qed.
+
+Lemma sb31_kdf_rejects_l key const rights mode key_length :
+  (~ (0 <= rights <= 3) \/ (key_length <> 128 /\ key_length <> 256))%Z ->
+  kdf_derive key const rights mode key_length = Err 1.
+Proof.
+  intros H. unfold kdf_derive, kdf_data.
+  destruct ((0 <=? rights) && (rights <=? 3))%Z eqn:E1; [|reflexivity].
+  destruct ((key_length =? 128) || (key_length =? 256))%Z eqn:E2; [|reflexivity].
+  exfalso. apply andb_true_iff in E1 as [A B]. apply Z.leb_le in A, B.
+  apply orb_true_iff in E2. destruct H as [H|[H1 H2]]; [lia|].
+  destruct E2 as [E2|E2]; apply Z.eqb_eq in E2; contradiction.
+Qed.
+
+(* ------------------------------------------------------------------ hash / MAC / KDF wrappers are the reference definitions *)
+Lemma mac_hash_wrappers_reference_l k d s i inf len :
+  get_hash d 1 = Ok (sha256 d) /\ get_hash d 2 = Ok (sha384 d) /\ get_hash d 3 = Ok (sha512 d) /\ get_hash d 254 = Err 1 /\
+  spsdk_hmac k d 1 = Ok (hmac_sha256 k d) /\ spsdk_hmac k d 2 = Ok (hmac_sha384 k d) /\ spsdk_hmac k d 3 = Ok (hmac_sha512 k d) /\
+  (aes_key_ok k = true -> spsdk_cmac k d = Ok (aes_cmac k d)) /\
+  ((0 <= len <= 8160)%Z -> spsdk_hkdf s i inf len = Ok (hkdf_sha256 s i inf (Z.to_nat len))).
+Proof.
+  repeat split; try reflexivity.
+  - intros H. unfold spsdk_cmac. now rewrite H.
+  - intros H. unfold spsdk_hkdf. replace (8160 <? len)%Z with false by (symmetry; apply Z.ltb_ge; lia). reflexivity.
+Qed.
